@@ -131,7 +131,11 @@ func C16(c *Ctx) {
 	// (a1) updateLockedState
 	if uls := c.P.FuncOpt("(*ab/lock.Lock).updateLockedState"); uls != nil {
 		name := FuncName(uls)
-		flag := uls.Params[len(uls.Params)-1]
+		lm := c.lockModeOf(uls)
+		if lm == nil {
+			r.Unknown("C16.lock-oracle", name, "password outcome", "-", "how the routine is told the password outcome is not understood")
+			lm = &lockMode{param: uls.Params[len(uls.Params)-1], isBool: true}
+		}
 		n := 0
 		for _, b := range uls.Blocks {
 			for _, in := range b.Instrs {
@@ -139,7 +143,7 @@ func C16(c *Ctx) {
 					continue
 				}
 				n++
-				dep := HasFact(FactsAtInstr(in), func(f Fact) bool { return f.SaysBool(flag, true) || f.SaysBool(flag, false) })
+				dep := HasFact(FactsAtInstr(in), lm.mentions)
 				r.Check(!dep, "C16.lock-oracle", name, truncateStr(in.String(), 40), posf(c, in), "not control-dependent on wasCorrectPassword", "a client-visible effect in the lock routine depends on whether the password was correct: the response to a locked account reveals password correctness")
 			}
 		}
@@ -153,7 +157,7 @@ func C16(c *Ctx) {
 				if !ok || c.isErrorExit(ret) {
 					continue
 				}
-				dep := HasFact(FactsAtInstr(ret), func(f Fact) bool { return f.SaysBool(flag, true) || f.SaysBool(flag, false) })
+				dep := HasFact(FactsAtInstr(ret), lm.mentions)
 				r.Check(!dep, "C16.lock-oracle", name, "return", posf(c, ret), "verdict does not depend on password correctness", "the veto verdict depends on whether the password was correct")
 			}
 		}
